@@ -68,6 +68,9 @@ def core_definitions():
     # over-aligned field introduced late: the record alignment is set by a later variant
     ds.append(("late_overalign", ["clone"], [A("a", "P1"), A("b", "Odd3"), C(), A("o", "Over16", True), C(),
                                              R("o"), A("w", "P16"), C("append")]))
+    # a zero-size datum is the most-aligned field of the definition (alignment marker)
+    ds.append(("zst_overalign", ["clone"], [A("a", "P4"), A("b", "P2"), A("c", "Odd3"), C(), R("a"), A("marker", "ZstA8"), C(),
+                                            A("t", "TrackedOdd"), C("basic")]))
     # variant made only of removals, empty first variant, only-uninit variant, orphan datum
     ds.append(("only_removals", ["serde"], [C(), A("x", "P8", True), A("y", "TrackedOdd"), C(), R("x"), R("y"), C()]))
     ds.append(("only_uninit", ["clone", "serde"], [A("u1", "P4", True), A("u2", "Odd12", True), C(), A("u3", "P2", True), C()]))
